@@ -29,6 +29,7 @@ type multi struct {
 	Y      string   `json:"Y_quoted"`
 	R      []string `json:"R_quoted,omitempty"`
 	NX     string   `json:"NX_quoted,omitempty"` // .N.X for recursive shapes
+	C      bool     `json:"C,omitempty"`         // .C for conditional prefixes
 }
 
 var markerRe = regexp.MustCompile("\x02([A-Z0-9]+)\x02")
@@ -42,7 +43,7 @@ func (m multi) data(markers bool) map[string]interface{} {
 		}
 		return util.Unq(q)
 	}
-	d := map[string]interface{}{"X": val("X", m.X), "Y": val("Y", m.Y)}
+	d := map[string]interface{}{"X": val("X", m.X), "Y": val("Y", m.Y), "C": m.C}
 	var r []string
 	for i, e := range m.R {
 		r = append(r, val(fmt.Sprintf("R%d", i), e))
@@ -218,7 +219,7 @@ func checkMulti(c *core.Ctx, m multi) {
 							c.Violation(k, "after %+q (query/fragment or TrustedResourceURL prefix) the datum %+q was emitted as %+q, which is not its full percent-encoding; template %s, output %+q", before, datum, f, text, r.Out)
 							return true
 						}
-						if t.tru && refs.DotDotWithArg(V[:at]+f+next, []refs.Span{{A: at, B: at + len(f)}}) {
+						if t.tru && refs.DotDotSplitByArg(V[:at]+f+next, []refs.Span{{A: at, B: at + len(f)}}) {
 							c.Violation(k, "the datum %+q completes a '..' segment after %+q: %+q", datum, before, V)
 							return true
 						}
@@ -255,9 +256,9 @@ func checkMulti(c *core.Ctx, m multi) {
 	}
 }
 
-var multiPrefixes = []string{"/p/", "/p?q=", "/p#f", "https://example.com/a/", "/x", "//example.com/b/", "/a?x=1&amp;y=", "mailto:", "/p/Zq", "ja", "javascript:alert(", "/b c/", "/p?q=%", "/a/%2e%", "/p?a&", "/q&#", "/p?a=&lt", "/t&Tab;/", "https://example.com", "/p?q=%2", ""}
-var multiInner = []string{"/Zq/", "?yZq=1", "&amp;Zq=", "#Zq", "Zq", "/Zq?k=", "-Zq.", "/Zq/..", "", "?Zq=1&amp;z="}
-var multiData = []string{"v", "b&c=d#e", "a b", "..", "%2e", "x/y", "?q", "javascript:alert(1)", "\"'<>", "é", "%zz", "a=b", ".", ""}
+var multiPrefixes = []string{"/p&#x;", "/p&#X;q", "/a&", "/a/.", "/a/%2e", "https://example.com/a/.", "/p/", "/p?q=", "/p#f", "https://example.com/a/", "/x", "//example.com/b/", "/a?x=1&amp;y=", "mailto:", "/p/Zq", "ja", "javascript:alert(", "/b c/", "/p?q=%", "/a/%2e%", "/p?a&", "/q&#", "/p?a=&lt", "/t&Tab;/", "https://example.com", "/p?q=%2", ""}
+var multiInner = []string{"./Zq", ".Zq", "%2e/Zq", "quest;Zq=", "num;Zq", "/Zq/", "?yZq=1", "&amp;Zq=", "#Zq", "Zq", "/Zq?k=", "-Zq.", "/Zq/..", "", "?Zq=1&amp;z="}
+var multiData = []string{"", "", "v", "b&c=d#e", "a b", "..", "%2e", "x/y", "?q", "javascript:alert(1)", "\"'<>", "é", "%zz", "a=b", ".", ""}
 
 func genMulti(r *core.Rng, i int) multi {
 	pick := func(l []string) string { return l[r.Intn(len(l))] }
@@ -268,7 +269,13 @@ func genMulti(r *core.Rng, i int) multi {
 	}
 	p, a, b := pick(multiPrefixes), pick(multiInner), pick(multiInner)
 	h1, h2 := pick(multiInner), pick(multiInner)
-	switch i % 8 {
+	m.C = r.Intn(2) == 0
+	switch i % 9 {
+	case 8: // a helper called at a URL start and after a prefix that only one branch emits
+		m.Defs = util.Q(`{{define "h"}}` + h1 + `{{.}}` + h2 + `{{end}}`)
+		cond := r.Pick([]string{"{{if .C}}{{else}}" + p + "{{end}}", "{{if .C}}" + p + "{{end}}", "{{with .C}}{{else}}" + p + "{{end}}", "{{if .C}}" + p + "{{else}}" + pick(multiPrefixes) + "{{end}}"})
+		m.Values = []string{util.Q(`{{template "h" .Y}}`), util.Q(cond + `{{template "h" .X}}` + b)}
+		m.Tgts = []int{r.Intn(8), ti}
 	case 0: // two data
 		m.Values, m.Tgts = []string{util.Q(p + "{{.X}}" + a + "{{.Y}}" + b)}, []int{ti}
 	case 1: // range body with static text
